@@ -89,33 +89,45 @@ fn plans(prop: &str, tier: &str) -> Vec<Plan> {
             let cfgs = if safe_only { safe_configs(p) } else { all_configs(p) };
             for (label, cfg) in cfgs {
                 let has_m = !cfg.mutators.is_empty();
-                // (depth, memo, deviation budget) boxes; every box is closed to fixpoint
-                let boxes: Vec<(usize, usize, usize)> = match (quick, has_m, p) {
-                    (true, false, 0) => vec![(4, 1, 0), (3, 2, 0), (2, 1, 1)],
-                    (true, false, 1..=3) => vec![(3, 1, 0), (2, 2, 0), (2, 1, 1)],
-                    (true, false, _) => vec![(3, 1, 0), (2, 2, 0), (2, 1, 1)],
-                    (true, true, 0) => vec![(3, 2, 0), (2, 1, 1)],
-                    (true, true, _) => vec![(2, 2, 0), (1, 1, 1)],
-                    (false, false, 0) => vec![(6, 2, 0), (5, 3, 0), (3, 1, 2)],
-                    (false, false, 1..=3) => vec![(5, 1, 0), (4, 2, 0), (3, 3, 0), (3, 1, 1), (2, 1, 2)],
-                    (false, false, _) => vec![(4, 2, 0), (3, 3, 0), (3, 1, 1), (2, 1, 2)],
-                    (false, true, 0) => vec![(5, 2, 0), (3, 1, 1), (2, 1, 2)],
-                    (false, true, _) => vec![(3, 2, 0), (2, 1, 1), (1, 1, 2)],
-                };
-                let mut boxes = boxes;
-                if matches!(prop, "C04" | "C05" | "C06") && (!has_m || !quick) {
-                    // argument encodings depend on drawn values: two simultaneous non-default value answers per step
-                    // (e.g. a non-empty string AND a special character) at a depth-1 box
-                    boxes.push(if quick { (1, 1, 2) } else { (2, 1, 2) });
-                    if !quick && !has_m {
-                        boxes.push((1, 1, 3));
+                // (depth, memo, deviation budget) boxes; every box is closed to fixpoint. The boxes are tailored to what the
+                // property's oracle can depend on: stack shape (C01/C03/C17), memo contents (C02), emitted encodings
+                // (C04/C05/C06, which depend on the opcode, the protocol and the drawn values, not on the stack below).
+                let p0 = p == 0;
+                let boxes: Vec<(usize, usize, usize)> = match (prop, quick, has_m) {
+                    ("C01" | "C03" | "C17", true, false) => vec![(if p0 { 4 } else { 3 }, 1, 0), (2, 2, 0), (2, 1, 1)],
+                    ("C01" | "C03" | "C17", true, true) => {
+                        let mut b = vec![(2, 2, 0), (1, 2, 1)];
+                        if p0 {
+                            // mutator x emission interplay on drawn values (non-empty string AND a special replacement
+                            // character): two value deviations per step; protocol 0 carries the text encodings
+                            b.push((1, 1, 2));
+                        }
+                        b
                     }
-                }
-                if safe_only && has_m && (p == 0 || !quick) {
-                    // mutator x emission interplay on drawn values (a non-empty string AND a special replacement
-                    // character): two value deviations per step; protocol 0 carries the text encodings
-                    boxes.push((1, 1, 2));
-                }
+                    ("C01" | "C03" | "C17", false, false) => match p {
+                        0 => vec![(6, 2, 0), (4, 3, 0), (3, 1, 1), (2, 1, 2)],
+                        1..=3 => vec![(4, 2, 0), (3, 3, 0), (3, 1, 1), (2, 1, 2)],
+                        _ => vec![(4, 1, 0), (3, 2, 0), (2, 3, 0), (2, 1, 1), (1, 1, 2)],
+                    },
+                    ("C01" | "C03" | "C17", false, true) => vec![(3, 2, 0), (2, 2, 1), (1, 1, 2)],
+                    ("C02", true, false) => vec![(2, 2, 0), (1, 3, 0), (2, 1, 1)],
+                    ("C02", true, true) => vec![(2, 2, 0), (1, 2, 1)],
+                    ("C02", false, false) => vec![(3, 3, 0), (2, 4, 0), (2, 2, 1), (1, 2, 2)],
+                    ("C02", false, true) => vec![(2, 3, 0), (2, 2, 1), (1, 2, 2)],
+                    ("C05", true, false) => vec![(2, 1, 0), (1, 1, if p0 { 2 } else { 1 })],
+                    ("C05", true, true) => vec![(1, 1, if p0 { 2 } else { 1 })],
+                    ("C05", false, _) => vec![(3, 1, 0), (2, 1, 1), (1, 1, 2)],
+                    ("C04", true, false) => vec![(2, 1, 0), (1, 1, 2)],
+                    ("C04", true, true) => vec![(2, 1, 0), (1, 1, 1)],
+                    ("C04", false, false) => vec![(3, 2, 0), (2, 1, 2), (1, 1, 3)],
+                    ("C04", false, true) => vec![(3, 1, 0), (2, 1, 1), (1, 1, 2)],
+                    ("C06", true, false) => vec![(2, 1, 0), (1, 1, 1)],
+                    ("C06", true, true) => vec![(1, 1, 1)],
+                    ("C06", false, false) => vec![(3, 2, 0), (2, 1, 1), (1, 1, 2)],
+                    ("C06", false, true) => vec![(2, 1, 1), (1, 1, 2)],
+                    (_, true, _) => vec![(2, 1, 0), (1, 1, 1)],
+                    (_, false, _) => vec![(3, 1, 0), (2, 1, 1)],
+                };
                 for (d, m, b) in boxes {
                     v.push(mk(&label, &cfg, d, m, b));
                 }
